@@ -22,7 +22,7 @@ def _data(desc):
   return _DCACHE[k]
 
 
-def gen_dataset(r, dmax=6, kind=None, tuples=True, unknown=False, big=False, tiny_scale_p=0.0):
+def gen_dataset(r, dmax=6, kind=None, tuples=True, unknown=False, big=False, tiny_scale_p=0.0, int_rows_p=0.0):
   d = r.randint(2, dmax)
   c = r.choice([2, 2, 3, 3, 4])
   n = max(4 * d, 5 * c) + r.randint(0, 24 if big else 12)
@@ -42,6 +42,8 @@ def gen_dataset(r, dmax=6, kind=None, tuples=True, unknown=False, big=False, tin
     desc["perm"] = 1
   if r.random() < 0.35:
     desc["chunk_ids"] = r.choice(["onebased", "gaps", "shuffled", "gaps_shuffled"])
+  if int_rows_p and (kind or "blobs") == "blobs" and r.random() < int_rows_p:
+    desc["int_rows"] = r.choice([0.3, 0.6])
   return desc
 
 
@@ -141,7 +143,7 @@ def gen_history(seed, tier, classes=None, weights=None, n_ops=(6, 16),
                 max_handles=3, pre_p=0.4, dmax=6, fresh_p=0.0, dataset_kinds=None,
                 unknown=False, verbose_p=0.15, extras_p=0.5, share_p=0.3,
                 classifier_bias=1, cp_fit_p=0.25, cp_invalid_p=0.0, calib_invalid_p=0.25,
-                store_bias=1, tiny_scale_p=0.0, wide_p=0.0, grid_p=0.0, failfirst_p=0.05, crash_sweep_p=0.0, buffer_p=0.0, view_p=0.0):
+                store_bias=1, tiny_scale_p=0.0, wide_p=0.0, grid_p=0.0, failfirst_p=0.05, crash_sweep_p=0.0, buffer_p=0.0, view_p=0.0, int_rows_p=0.0):
   r = substream(seed, "hist")
   if wide_p and substream(seed, "hist-wide").random() < wide_p:
     return gen_wide_history(seed)
@@ -165,7 +167,7 @@ def gen_history(seed, tier, classes=None, weights=None, n_ops=(6, 16),
   for i in range(nd):
     kind = r.choice(dataset_kinds) if dataset_kinds else None
     datasets["D%d" % i] = gen_dataset(r, dmax=dmax, kind=kind, unknown=unknown,
-                                      tiny_scale_p=tiny_scale_p)
+                                      tiny_scale_p=tiny_scale_p, int_rows_p=int_rows_p)
   if view_p and r.random() < view_p:
     # a second store that is a slice of D0's array (train / validation split of
     # one array): swapping one for the other as preprocessor must take effect
